@@ -129,11 +129,12 @@ type termTable struct {
 	ur    map[*Term]ival
 	varS  map[*Term]ival
 	varU  map[*Term]ival
+	supp  map[*Term]suppSet
 }
 
 func newTermTable() *termTable {
 	return &termTable{m: make(map[string]*Term), sr: map[*Term]ival{}, ur: map[*Term]ival{},
-		varS: map[*Term]ival{}, varU: map[*Term]ival{}}
+		varS: map[*Term]ival{}, varU: map[*Term]ival{}, supp: map[*Term]suppSet{}}
 }
 
 func (tt *termTable) mk(op top, s tsort, k uint64, k2 int, name string, args ...*Term) *Term {
